@@ -897,6 +897,15 @@ func (env *Env) trCall(x *ECall) TV {
 		inner.st = env.old
 		inner.inOld = true
 		return inner.tr(x.Args[0])
+	case "now":
+		// now(e): e with allocated(x) meaning "exists in the state where e is evaluated" (loop invariants about
+		// objects built inside the loop; in ensures clauses this is the default)
+		argN(1)
+		inner := env.child()
+		if env.lazy == nil && env.st != nil {
+			inner.postAlloc = env.st.get("alloc")
+		}
+		return inner.tr(x.Args[0])
 	case "len":
 		argN(1)
 		v := env.tr(x.Args[0])
